@@ -283,6 +283,68 @@ func driveVerify(c *ctx) {
 			enc(pub, be32(e)[:], secec.BuildCompactSignature(scFrom(r), scFrom(sv)), &secec.ECDSAOptions{Encoding: secec.EncodingCompact})
 		}
 	}
+	// constructed near misses: the point R = u1 G + u2 Q is FIXED by (u1, u2) whatever r is (s = r/u2, e = u1 s), so r can be set
+	// to any value next to x(R): x(R) shifted by +-1, +-(p-n), +-(2^256-p), +-(2^256-n), reduced or not.  None equals x(R) mod n,
+	// so every one must be rejected — a comparison that wraps modulo p, forgets a guard, or compares truncated values accepts one.
+	{
+		pmn := new(big.Int).Sub(bigP, bigN)
+		offs := []*big.Int{big.NewInt(1), pmn, new(big.Int).Sub(big2_256, bigP), new(big.Int).Sub(big2_256, bigN), bigN, new(big.Int).Lsh(big.NewInt(1), 128), new(big.Int).Lsh(big.NewInt(1), 64)}
+		var Rs []xy
+		Rs = append(Rs, pointsWithXAboveN(rng, 2)...)
+		for i := 0; i < c.scale(4, 40); i++ {
+			p := mulG(add(randBig(rng, add(bigN, -1)), 1))
+			xb, _ := p.XBytes()
+			Rs = append(Rs, xy{new(big.Int).SetBytes(xb), big.NewInt(int64(p.IsYOdd()))})
+		}
+		Rs = append(Rs, curvePointsWithSmallX(rng, 3)...)
+		for _, R := range Rs {
+			// a key and (u1, u2) with u1 G + u2 Q = R: Q = dG, u2 random, u1 = k - u2 d where R = kG is not known for arbitrary R, so
+			// go the other way: recover Q from (R, r0, s0, e0) with the library's recovery, then re-target r with the same u1, u2
+			r0 := new(big.Int).Mod(R.x, bigN)
+			if r0.Sign() == 0 {
+				continue
+			}
+			s0 := add(randBig(rng, add(bigN, -1)), 1)
+			dg0 := randBytes(rng, 32)
+			v := byte(R.y.Bit(0))
+			if R.x.Cmp(bigN) >= 0 {
+				v |= 2
+			}
+			q := constructKey(dg0, r0, s0, v)
+			if q == nil {
+				continue
+			}
+			e0 := new(big.Int).Mod(new(big.Int).SetBytes(dg0), bigN)
+			s0i := new(big.Int).ModInverse(s0, bigN)
+			u1 := new(big.Int).Mod(new(big.Int).Mul(e0, s0i), bigN)
+			u2 := new(big.Int).Mod(new(big.Int).Mul(r0, s0i), bigN)
+			if u2.Sign() == 0 {
+				continue
+			}
+			u2i := new(big.Int).ModInverse(u2, bigN)
+			emit := func(r *big.Int) {
+				if r.Sign() <= 0 || r.Cmp(bigN) >= 0 || r.Cmp(r0) == 0 {
+					return
+				}
+				sv := new(big.Int).Mod(new(big.Int).Mul(r, u2i), bigN)
+				e := new(big.Int).Mod(new(big.Int).Mul(u1, sv), bigN)
+				if sv.Sign() == 0 {
+					return
+				}
+				out := q.VerifyRaw(be32(e)[:], scFrom(r), scFrom(sv))
+				c.E("vfy.Raw", "q", hx(q.Bytes()), "digest", h32(e), "r", h32(r), "s", h32(sv), "out", out, "near_miss", true)
+				enc(q, be32(e)[:], secec.BuildCompactSignature(scFrom(r), scFrom(sv)), &secec.ECDSAOptions{Encoding: secec.EncodingCompact})
+			}
+			for _, o := range offs {
+				for _, base := range []*big.Int{R.x, r0} {
+					emit(new(big.Int).Add(base, o))
+					emit(new(big.Int).Sub(base, o))
+					emit(new(big.Int).Mod(new(big.Int).Add(base, o), bigN))
+					emit(new(big.Int).Mod(new(big.Int).Sub(base, o), bigN))
+				}
+			}
+		}
+	}
 	// a public key object keeps verifying after the caller scribbles over everything it handed out
 	for i := 0; i < c.scale(3, 30); i++ {
 		priv := privFrom(add(randBig(rng, add(bigN, -1)), 1))
@@ -468,6 +530,7 @@ func driveSign(c *ctx) {
 		}
 	}
 	cases = append(cases, optcase{"hash", crypto.SHA256, 0}, optcase{"hash", crypto.SHA512, 0}, optcase{"hash", crypto.SHA1, 0})
+	var kept []keptSig
 	for ki, d := range keys {
 		if !c.thorough() && ki >= 6 {
 			break
@@ -499,12 +562,28 @@ func driveSign(c *ctx) {
 					}
 				}
 				sig, err := sign(false)
+				sigHex := hx(sig)
 				sigSV, errSV := sign(true)
 				c.E("sig.Enc", "d", h32(d), "digest", hx(dg), "optkind", oc.kind, "hash", hsize, "enc", encName(oc.enc),
-					"ok", err == nil, "sig", hx(sig), "ok_sv", errSV == nil, "sig_sv", hx(sigSV))
+					"ok", err == nil, "sig", sigHex, "ok_sv", errSV == nil, "sig_sv", hx(sigSV))
+				// signatures handed out earlier (other keys, digests, encodings) are the caller's: later signing never changes them
+				for _, k := range kept {
+					c.E("sig.Stable", "then", k.then, "now", hx(k.sig), "later_enc", encName(oc.enc))
+				}
+				if err == nil {
+					kept = append(kept, keptSig{sig, sigHex})
+					if len(kept) > 3 {
+						kept = kept[1:]
+					}
+				}
 			}
 		}
 	}
+}
+
+type keptSig struct {
+	sig  []byte // the slice exactly as the library returned it
+	then string // its content at that time
 }
 
 func scHexOr(s *secp256k1.Scalar) string {
@@ -573,6 +652,28 @@ func driveRecover(c *ctx) {
 	// r or s zero
 	allV(randBytes(rng, 32), big.NewInt(0), big.NewInt(5), false, "", false)
 	allV(randBytes(rng, 32), big.NewInt(5), big.NewInt(0), false, "", false)
+	// the recovery id as it travels on the wire (r || s || v): the byte is taken verbatim — ids that agree with the genuine one
+	// modulo 4 (v|4, v|0x80, v+252 ...) or in other bit fields are NOT the genuine id.  Through the parser followed by recovery,
+	// and through Verify with the recoverable encoding.
+	for i := 0; i < c.scale(4, 40); i++ {
+		priv := privFrom(add(randBig(rng, add(bigN, -1)), 1))
+		digest := randBytes(rng, 32)
+		r, s, v, err := priv.SignRaw(&fixedReader{randBytes(rng, 32)}, digest)
+		if err != nil {
+			panic(err)
+		}
+		for _, vb := range []int{int(v), int(v) ^ 1, int(v) | 4, int(v) | 8, int(v) | 0x10, int(v) | 0x80, int(v) | 0xfc, int(v) + 27, int(v) + 31} {
+			wire := secec.BuildCompactRecoverableSignature(r, s, byte(vb))
+			out := priv.PublicKey().Verify(digest, wire, &secec.ECDSAOptions{Encoding: secec.EncodingCompactRecoverable})
+			c.E("vfy.Enc", "q", hx(priv.PublicKey().Bytes()), "digest", hx(digest), "sig", hx(wire), "hasopts", true, "hash", 32, "enc", "recoverable", "rejmal", false, "out", out)
+			if pr, ps, pv, perr := secec.ParseCompactRecoverableSignature(wire); perr == nil {
+				rec(digest, new(big.Int).SetBytes(pr.Bytes()), new(big.Int).SetBytes(ps.Bytes()), int(pv), int(pv) == int(v), hx(priv.PublicKey().Bytes()))
+				if int(pv) != vb&0xff {
+					c.E("lib.Unexpected", "what", "ParseCompactRecoverableSignature altered the recovery id byte", "wire", vb&0xff, "parsed", int(pv))
+				}
+			}
+		}
+	}
 	// Q at infinity: s R = e G.  Take R = kG, r = x(R) mod n, any s, e = s k.
 	for i := 0; i < c.scale(6, 60); i++ {
 		k := add(randBig(rng, add(bigN, -1)), 1)
@@ -768,14 +869,54 @@ func driveKeys(c *ctx) {
 			"peer_bytes", hx(peer.Bytes()), "peer_point", hx(peer.Point().UncompressedBytes()), "apub_bytes", hx(ka.PublicKey().Bytes()), "apub_point", hx(ka.PublicKey().Point().UncompressedBytes()))
 	}
 
+	// recovery is a constructor of public-key objects too: inputs crafted so that Q = r^-1 (s R - e G) is the point at infinity
+	// (R = kG, r = x(R), e = s k) must yield an error, never a key object; and through Verify with the recoverable encoding
+	for i := 0; i < c.scale(6, 40); i++ {
+		k := add(randBig(rng, add(bigN, -1)), 1)
+		R := mulG(k)
+		xb, _ := R.XBytes()
+		x := new(big.Int).SetBytes(xb)
+		if x.Cmp(bigN) >= 0 {
+			continue
+		}
+		sv := add(randBig(rng, add(bigN, -1)), 1)
+		e := new(big.Int).Mod(new(big.Int).Mul(sv, k), bigN)
+		for _, v := range []int{int(R.IsYOdd()), int(R.IsYOdd()) ^ 1} {
+			var (
+				q   *secec.PublicKey
+				err error
+			)
+			o := ""
+			if pn := catch(func() { q, err = secec.RecoverPublicKey(be32(e)[:], scFrom(x), scFrom(sv), byte(v)) }); pn {
+				c.E("lib.Unexpected", "what", "RecoverPublicKey panicked", "digest", h32(e), "r", h32(x), "s", h32(sv), "v", v)
+				continue
+			}
+			if err == nil {
+				o = hx(q.Bytes())
+			}
+			c.E("rec.Recover", "digest", h32(e), "r", h32(x), "s", h32(sv), "v", v, "ok", err == nil, "q", o, "honest", false, "signer", "")
+		}
+	}
+
 	// ECDH
 	ks := []*big.Int{big.NewInt(1), add(bigN, -1), big.NewInt(2)}
 	for i := 0; i < c.scale(10, 150); i++ {
 		ks = append(ks, add(randBig(rng, add(bigN, -1)), 1))
 	}
+	// private scalars steered to the corners of the variable-base multiply (extreme split halves, rounding-bit flips, limb carries in
+	// the rounded quotients): each against a couple of ordinary peers
+	nOrd := len(ks)
+	for _, v := range steeredScalars(rng, 0) {
+		if v.Sign() != 0 {
+			ks = append(ks, v)
+		}
+	}
 	for i, a := range ks {
 		for j, b := range ks {
 			if !c.thorough() && i > 2 && j > 2 && (i+j)%4 != 0 {
+				continue
+			}
+			if (i >= nOrd && (j < 3 || j > 4)) || j >= nOrd {
 				continue
 			}
 			ka, kb := privFrom(a), privFrom(b)
